@@ -33,7 +33,7 @@ func init() {
 			"the receiver parses with a conforming front end and compares against the expected element skeleton (names, namespaces, attribute sets, schema order) and exact values; distinct = shape hash (kind, signed, optional settings, string classes, clock mode, outcome)",
 		Directed:    c15Directed,
 		Run:         c15Run,
-		MustHit:     []string{"kind=AuthnRequest", "kind=LogoutRequest", "kind=LogoutResponse", "signed", "unsigned", "hostile_strings", "non_utc_location", "issuer_fallback", "reqctx", "year_end", "subsecond_clock", "value_with_markup", "value_with_CR"},
+		MustHit:     []string{"kind=AuthnRequest", "kind=LogoutRequest", "kind=LogoutResponse", "signed", "unsigned", "hostile_strings", "non_utc_location", "issuer_fallback", "reqctx", "year_end", "subsecond_clock", "value_with_markup", "value_with_CR", "no_issuer_configured_at_all"},
 		RandomRuns:  map[string]int{"quick": 8000, "thorough": 60000},
 		Assumptions: []string{"values are drawn from the XML character repertoire (NUL and other non-XML characters cannot be carried by XML at all)"},
 	})
